@@ -3,7 +3,7 @@ import PyxModel.Sql.Wire
 import PyxModel.Sql.Links
 
 /-! driver for `(c01 <mm> "extra text" …)`:
-    answer `((texts t1 … t8) (loads L1 … L8 Lextra …) (links Lm Lr) (round2 text₂ itext₂))` — the eight writer routes of xtuml/persist.py on the
+    answer `((texts t1 … t8) (loads L1 … L8 Lextra …) (links Lm Lr) (round2 text₂ itext₂) (tokens T1 T5))` — the eight writer routes of xtuml/persist.py on the
     model, and for each of those texts and each extra text what the loader makes of it:
     `(accepted (stmt …) <built model | parsing | meta>)` or `(parsing)`. -/
 namespace Pyx.Driver.C01
@@ -61,8 +61,12 @@ def round2 (m : MM) : Sexp :=
 def run (m : MM) (extra : List Text) : Sexp :=
   let texts := (routes m).map (printItems u0)
   let loads := texts.map (fun t => match t with | some t => loadSexp t | none => sym "error") ++ extra.map loadSexp
+  -- the token streams (hand scanners, regex engine on the generated parse trees) of the two database texts
+  let toks := [texts[0]?, texts[4]?].map fun t => match t with
+    | some (some t) => lexBoth u0 t
+    | _ => sym "error"
   list [list (sym "texts" :: texts.map optText), list (sym "loads" :: loads),
-        list [sym "links", linksSexp m, reloadedLinks m], round2 m]
+        list [sym "links", linksSexp m, reloadedLinks m], round2 m, list (sym "tokens" :: toks)]
 
 def handle : List Sexp → Option Sexp
   | sym "c01" :: m :: extra =>
